@@ -679,7 +679,7 @@ int _vnadata_load_npd(vnadata_internal_t *vdip, FILE *fp, const char *filename)
 			    FIELD(&nss, 2 + 2 * port));
 		    goto out;
 		}
-		z0_vector[port] = re + I * im;
+		z0_vector[port] = CMPLX(re, im);
 	    }
 	    if (scan_line(&nss) == -1) {
 		goto out;
@@ -941,7 +941,7 @@ int _vnadata_load_npd(vnadata_internal_t *vdip, FILE *fp, const char *filename)
 			    FIELD(&nss, 2 + 2 * port));
 		    goto out;
 		}
-		z0_vector[port] = re + I * im;
+		z0_vector[port] = CMPLX(re, im);
 	    }
 	    if (vnadata_set_fz0_vector(vdp, findex, z0_vector) == -1) {
 		_vnadata_error(vdip, VNAERR_SYSTEM,
@@ -981,7 +981,7 @@ int _vnadata_load_npd(vnadata_internal_t *vdip, FILE *fp, const char *filename)
 		    break;
 
 		case VNADATA_FORMAT_REAL_IMAG:
-		    value = v1 + I * v2;
+		    value = CMPLX(v1, v2);
 		    break;
 
 		case VNADATA_FORMAT_PRC:
